@@ -30,6 +30,8 @@ func main() {
 		modeC10()
 	case "c14":
 		modeC14()
+	case "c16":
+		modeC16()
 	default:
 		res.InfraError("unknown mode %s", mode)
 	}
@@ -116,5 +118,22 @@ func replayBox(mode string) {
 			return
 		}
 		res.InfraError("unknown scenario %q", rp.Scenario)
+	case "c16":
+		var c c16Case
+		json.Unmarshal(art.Violation.Replay, &c)
+		var viol [][2]string
+		x := vrt.Run(boxCfg(), nil, func() { viol = c16Run(c) })
+		res.Eval()
+		if x.Outcome != "ok" {
+			kind := "hang"
+			if x.Outcome == "panic" {
+				kind = "panic"
+			}
+			res.Violate(kind, "box/c16", map[string]any{"panic": x.Detail, "blocked": x.Blocked}, fmt.Sprintf("[%s]: %s %s", c, x.Outcome, x.Detail), c)
+			return
+		}
+		for _, v := range viol {
+			res.Violate("mismatch", "box/c16", c16Sig(v[0], c), fmt.Sprintf("[%s]: %s", c, v[1]), c)
+		}
 	}
 }
